@@ -103,7 +103,9 @@ def gen_text(rng, allow_trailing_ws=True):
 def gen_misc(rng):
     k = rng.choice(['comment', 'comment', 'cdata', 'pi'])
     if k == 'comment':
-        body = rand_plain(rng).replace('--', '- -')
+        body = rand_plain(rng)
+        while '--' in body:
+            body = body.replace('--', '- -')
         if body.endswith('-'):
             body += ' '
         return '<!--' + body + '-->'
